@@ -24,10 +24,8 @@ func (t *T0x0200) Parse(jtMsg *jt808.JTMessage) error {
 	if err := t.T0x0200LocationItem.parse(body); err != nil {
 		return err
 	}
-	if len(body) > 28 {
-		return t.T0x0200AdditionDetails.parse(body[28:])
-	}
-	return nil
+	// 没有附加信息的时候也要解析 (空的) 复用同一个对象解析时不能保留上一次报文的附加信息
+	return t.T0x0200AdditionDetails.parse(body[28:])
 }
 
 func (t *T0x0200) Encode() []byte {
